@@ -338,6 +338,20 @@ def runC07 (t : Tier) : Emit Unit := do
       let sh ← liftGen (shuffle rest.flatten)
       let m' := { m with schedule := List.replicate patN 0 ++ sh }
       emit "C07" (demuxCase m'.bytes { view := .perpid } none (some exp) "merge")
+    -- repeated PATs anywhere in the multiplex (also between the packets of a PMT unit): a PMT PID depends on a PAT
+    -- having been delivered earlier, not on where later PATs fall
+    let mr ← liftGen (genStream { pesPIDs := [0x100], pmtPIDs := [0x1000], dvb := false, unitsPerPID := 2, maxPayload := 300,
+                                  multiPMT := 3, patRepeats := 2 })
+    let expR := expectedStr mr
+    let perR := perPID mr.units
+    let firstPat := (mr.units.find? (·.pid == 0)).map (·.chunks.length) |>.getD 0
+    for _ in [0:(if t.quick then 4 else 12)] do
+      let all := (perR.map fun (pid, ps, _) => List.replicate ps.length pid).flatten
+      -- remove the first PAT unit's entries from the shuffled part
+      let restPat := List.replicate ((all.filter (· == 0)).length - firstPat) 0
+      let sh ← liftGen (shuffle (all.filter (· != 0) ++ restPat))
+      let m' := { mr with schedule := List.replicate firstPat 0 ++ sh }
+      emit "C07" (demuxCase m'.bytes { view := .perpid } none (some expR) "merge-repeated-pat")
     -- insert null / adaptation-only / transport-error packets at random points
     let ps := m.packets
     for _ in [0:(if t.quick then 6 else 20)] do
